@@ -193,13 +193,13 @@ class ODataLexer(Lexer):
         t.value = ast.Integer(t.value)
         return t
 
-    @_(r"(?:true|false)\b")
+    @_(r"(?:true|false)\b(?!\.\w)")
     def BOOLEAN(self, t):
         ":meta private:"
         t.value = ast.Boolean(t.value)
         return t
 
-    @_(r"null\b")
+    @_(r"null\b(?!\.\w)")
     def NULL(self, t):
         ":meta private:"
         t.value = ast.Null()
@@ -313,13 +313,13 @@ class ODataLexer(Lexer):
     ####################################################################################
     # Collection operators
     ####################################################################################
-    @_(r"any\b")
+    @_(r"any(?=\()")
     def ANY(self, t):
         ":meta private:"
         t.value = ast.Any()
         return t
 
-    @_(r"all\b")
+    @_(r"all(?=\()")
     def ALL(self, t):
         ":meta private:"
         t.value = ast.All()
